@@ -5,7 +5,7 @@ import math
 import numpy as np
 
 FLAVORS = ["plain", "plain", "plain", "uniform_scale", "sensor_scale", "const_sensor", "dup_rows",
-           "corr", "int", "float32", "fortran", "strided", "readonly"]
+           "corr", "int", "float32", "fortran", "strided", "readonly", "baseline"]
 
 
 def regime_series(rng, T, N, n_reg=2, seg=20, scale=1.0):
@@ -33,6 +33,9 @@ def make_series(d):
         x = x * float(d.get("scale", 1.0))
     elif fl == "sensor_scale":
         x = x * (10.0 ** rng.uniform(-float(d.get("logscale", 6)), float(d.get("logscale", 6)), size=N))
+    elif fl == "baseline":
+        # every sensor rides on a large constant level compared with its fluctuation (|mean|/std 1e4..1e7)
+        x = x + (10.0 ** rng.uniform(4, 7, size=N)) * rng.choice([-1.0, 1.0], size=N)
     elif fl == "const_sensor":
         x[:, 0] = 5.0
     elif fl == "dup_rows":
